@@ -1405,6 +1405,31 @@ impl<'a> Visitor<'a, '_, Error> for JSONValidator<'a> {
           }
         }
       }
+      // a negative lower bound with a non-negative upper bound, e.g. -2..5
+      (Type2::IntValue { value: l, .. }, Type2::UintValue { value: u, .. }) => {
+        let (l, u) = (*l as i128, *u as i128);
+        let i = match &self.json {
+          Value::Number(n) => n
+            .as_i64()
+            .map(i128::from)
+            .or_else(|| n.as_u64().map(i128::from)),
+          _ => None,
+        };
+        match i {
+          Some(i) if i >= l && (i < u || (is_inclusive && i == u)) => {}
+          Some(_) => self.add_error(format!(
+            "expected integer to be in range {} <= value {} {}, got {}",
+            l,
+            if is_inclusive { "<=" } else { "<" },
+            u,
+            self.json
+          )),
+          None => self.add_error(format!(
+            "invalid cddl range. value must be an integer type. got {}",
+            self.json
+          )),
+        }
+      }
       _ => {
         self.add_error(
           "invalid cddl range. upper and lower values must be either integers or floats"
